@@ -65,8 +65,11 @@ FRAG_OWNER = {
 
 
 class Gen:
-    def __init__(self, unit, false_twin=False):
+    def __init__(self, unit, false_twin=False, auto_fns=None):
         self.unit = unit
+        # helper functions that the code under contract calls but that no template mentions (e.g. introduced by a change):
+        # {(file, name): props} -- emitted verbatim WITHOUT a contract, so callers learn nothing from them
+        self.auto_fns = auto_fns or {}
         self.false_twin = false_twin
         self.lines = []           # generated lines
         self.origin = []          # per generated line: (kind, file, line)
@@ -81,6 +84,7 @@ class Gen:
         self._cur_fn = None
         self._foreign = 0          # >0 while processing a fragment owned by another unit
         self.deps = set()          # owner units of the foreign fragments included
+        self.dropped_hints = []
 
     # ------------------------------------------------------------------ emit
     def emit(self, text, origin):
@@ -173,6 +177,9 @@ class Gen:
                 elif cmd == 'struct':
                     self.close_label()
                     self.struct_check(rest)
+                elif cmd == 'structview':
+                    self.close_label()
+                    self.struct_view(rest, (kind, path, i + 1))
                 elif cmd == 'item':
                     self.close_label()
                     self.item_verbatim(rest, (kind, path, i + 1))
@@ -273,6 +280,36 @@ class Gen:
         self.struct_checks.append({'name': name, 'file': kv['file'], 'fields': names,
                                    'lines': [it.line_start, it.line_end], 'sha256': sha(it.text)})
 
+    def struct_view(self, rest, origin):
+        """View of a struct whose FIELD LIST is taken from /repo on every run (so a field added to the real struct appears
+        in the view): the template gives the Verus header (generics mapped) and a `map=` list of type substitutions
+        `from=>to;;from=>to` (R4); everything else in a field line is copied verbatim."""
+        pos, kv = parse_kv(rest)
+        name = pos[0]
+        src = read_repo(kv['file'])
+        try:
+            it = rs.find_item(src, r'(^|\s)struct ' + re.escape(name) + r'\b', kv['file'])
+        except LookupError as e:
+            raise Undecided(str(e))
+        body = it.body[1:-1]
+        maps = [m.split('=>') for m in kv.get('map', '').split(';;') if m]
+        self.emit(kv['header'] + ' {', origin)
+        base = it.body_line_start
+        for k, line in enumerate(body.split('\n')):
+            t = line
+            if t.strip().startswith('//') or t.strip().startswith('#['):
+                continue
+            for a, b in maps:
+                t = t.replace(a, b)
+            t = re.sub(r'\bpub\(crate\)\s+', 'pub ', t)
+            # fields are made pub in the view (visibility is not modelled)
+            t = re.sub(r'^(\s*)(?!pub )([a-z_][a-z0-9_]*\s*:)', r'\1pub \2', t)
+            if t.strip():
+                self.emit(t, ('repo', kv['file'], base + k))
+        self.emit('}', origin)
+        self.struct_checks.append({'name': name, 'file': kv['file'], 'view': 'fields from /repo', 'maps': maps,
+                                   'lines': [it.line_start, it.line_end], 'sha256': sha(it.text)})
+
     def item_verbatim(self, rest, origin):
         """Copy a whole item (enum/struct/fn) verbatim through the rewrite table."""
         pos, kv = parse_kv(rest)
@@ -359,9 +396,9 @@ class Gen:
                 n = int(st.split()[1])
                 cur = loops.setdefault(n, [])
             elif st.startswith('//@hint '):
-                m = re.match(r'//@hint\s+(before|after-block|after)\s+(.*)$', st)
+                m = re.match(r'//@hint\s+(?:for=(\S+)\s+)?(before|after-block|after)\s+(.*)$', st)
                 cur = []
-                hints.append((m.group(1), m.group(2).strip(), cur, i + 1))
+                hints.append((m.group(2), m.group(3).strip(), cur, i + 1, m.group(1)))
             elif st.startswith('//@rw '):
                 m = re.match(r'//@rw\s+(R\d+)\s+/(.*)/\s*=>\s*(.*)$', st)
                 if not m:
@@ -433,9 +470,14 @@ class Gen:
                     body_lines.append((t, ('tmpl', path, ln)))
         body_lines.append((pending, ('repo', kv['file'], cur_line)))
         # hints
-        for where, rx, hl, hln in hints:
+        for where, rx, hl, hln, hfor in hints:
             cands = [k for k, (t, o) in enumerate(body_lines) if o[0] == 'repo' and re.search(rx, t)]
             if len(cands) != 1:
+                if hfor:
+                    # the hint only supports the named clauses: go on without it; a failure of one of those clauses is then
+                    # reported as undecided (the proof aid is gone), every other clause of the function is still decided
+                    self.dropped_hints.append({'fn': fid, 'anchor': rx, 'for': hfor.split(',')})
+                    continue
                 raise Undecided(f'{fid}: hint anchor /{rx}/ matches {len(cands)} body lines')
             k = cands[0] + (1 if where == 'after' else 0)
             if where == 'after-block':
@@ -526,6 +568,26 @@ class Gen:
         else:
             self.lines[k - 1] = self.lines[k - 1] + ' ensures false,'
 
+    def emit_auto_fn(self, file, name, props):
+        src = read_repo(file)
+        try:
+            it = rs.find_fn(src, name, None, file)
+        except LookupError as e:
+            raise Undecided(f'function `{name}` is called by code under contract but cannot be located in {file}: {e}')
+        fn = {'id': f'{self.unit}.auto:{name}', 'props': sorted(props), 'file': file, 'name': name,
+              'repo_lines': [it.line_start, it.line_end], 'sha256': sha(it.text), 'rule_hits': {}, 'kind': 'fn', 'auto': True,
+              'gen_start': len(self.lines) + 1, 'implements': None}
+        self.emit(f'// AUTO-INCLUDED helper `{name}` from {file} (no contract: callers learn nothing from it)', ('gen', '', 0))
+        text, hits = rules.apply(it.text, self, '', fn_id=fn['id'])
+        text = re.sub(r'^(\s*)pub(\([a-z]+\))?\s+', r'\1', text, count=1)
+        fn['rule_hits'] = hits
+        base = it.line_start
+        for k, l in enumerate(text.split('\n')):
+            self.emit(l, ('repo', file, base + k))
+        fn['gen_end'] = len(self.lines)
+        fn['loops'] = 0
+        self.fns.append(fn)
+
     # ---------------------------------------------------------------- main
     def build(self):
         self.emit('// GENERATED by /verif/vlib/gen.py from units/%s.vrs and /repo sources -- do not edit' % self.unit,
@@ -535,12 +597,14 @@ class Gen:
         self.emit('use std::io; use std::io::SeekFrom; use std::convert::TryFrom;', ('gen', '', 0))
         self.emit('verus! {', ('gen', '', 0))
         self.include(self.tmpl_path, 'tmpl')
+        for (file, name), props in sorted(self.auto_fns.items()):
+            self.emit_auto_fn(file, name, props)
         self.emit('} // verus!', ('gen', '', 0))
         self.emit('fn main() {}', ('gen', '', 0))
         return '\n'.join(self.lines) + '\n'
 
     def meta(self):
-        return {'unit': self.unit, 'deps': sorted(self.deps), 'fns': self.fns, 'labels': self.labels, 'rule_hits': self.rule_hits,
+        return {'unit': self.unit, 'deps': sorted(self.deps), 'dropped_hints': self.dropped_hints, 'fns': self.fns, 'labels': self.labels, 'rule_hits': self.rule_hits,
                 'struct_checks': self.struct_checks, 'notes': self.notes,
                 'consts': {f'{k[0]}::{k[1]}': (v[1] if not isinstance(v[1], bytes) else v[1].decode('latin1'))
                            for k, v in self.consts.items()}}
